@@ -341,7 +341,7 @@ def r9(ctx):
     ctx.check(not rets, sv, "no return inside the iteration loop", role="loop:no-return", found=f"{len(rets)} return(s)")
 
 
-@rule("C02", "R10", "OWN", "the X, Z and U updates return fresh arrays and never write the iterates they are given (Z_old stays the old Z)", floor=3)
+@rule("C02", "R10", "OWN", "the X, Z and U updates return fresh arrays and never write the iterates they are given (Z_old stays the old Z)", floor=3, evidence=True)
 def r10(ctx):
     from .own import describe, ext_writes, ownership
     ana = ctx.ana
